@@ -436,15 +436,22 @@ Definition hdr_table (h : hdr) : option hdr := if h_count h =? 0 then None else 
 
 Definition hdr_pp (hb : sbases) (h : hdr) : pparams := mkpp hb None (h_asz h).
 
-(* EhHdrTableIter: state = (table reader, remain) *)
+(* EhHdrTableIter: state = (table reader, remain). `next` returns a value (None | Some row | Err)
+   together with the new iterator state: after a row that fails to parse `remain` is set to 0, so
+   every later call returns None (the reader position left behind is then unobservable). *)
 Definition tbl_next (dbg : bool) (hb : sbases) (h : hdr) (st : rd * N)
-  : res (option (pointer * pointer) * (rd * N)) :=
+  : res (step (pointer * pointer) * (rd * N)) :=
   let '(t, remain) := st in
-  if remain =? 0 then Ok (None, st) else
-  (* self.remain -= 1 happens before the two reads; an Err leaves the decremented count behind *)
-  let* (from, t1) := parse_encoded_pointer dbg (h_be h) (h_enc h) (hdr_pp hb h) t in
-  let* (to, t2) := parse_encoded_pointer dbg (h_be h) (h_enc h) (hdr_pp hb h) t1 in
-  Ok (Some (from, to), (t2, remain - 1)).
+  if remain =? 0 then Ok (SNone, st) else
+  (* self.remain -= 1; then the closure parse_row *)
+  match (let* (from, t1) := parse_encoded_pointer dbg (h_be h) (h_enc h) (hdr_pp hb h) t in
+         let* (to, t2) := parse_encoded_pointer dbg (h_be h) (h_enc h) (hdr_pp hb h) t1 in
+         Ok ((from, to), t2)) with
+  | Ok (row, t2) => Ok (SSome row, (t2, remain - 1))
+  | Err e => Ok (SErr e, (t, 0))
+  | Panic => Panic
+  | OutOfFuel => OutOfFuel
+  end.
 
 (* size of one field for the fixed-size table encodings; None = UnsupportedPointerEncoding *)
 Definition tbl_field_size (enc : N) : option N :=
@@ -454,34 +461,34 @@ Definition tbl_field_size (enc : N) : option N :=
   else if (f =? 12) || (f =? 4) then Some 8
   else None.
 
-(* iterate `next` until None or Err: rows and the terminating error if any; structural on the
-   number of rows that can possibly be decoded (each row consumes at least two bytes) *)
+(* `while let Some(row) = it.next()?`: rows and the terminating error if any; each row consumes
+   at least two bytes, so fuel = table length + 1 suffices (theorem) *)
 Fixpoint tbl_all_loop (fuel : nat) (dbg : bool) (hb : sbases) (h : hdr) (st : rd * N)
   : res (list (pointer * pointer) * option error) :=
   match fuel with
   | O => OutOfFuel
   | S f =>
-      match tbl_next dbg hb h st with
-      | Ok (None, _) => Ok ([], None)
-      | Ok (Some row, st1) => let* (l, e) := tbl_all_loop f dbg hb h st1 in Ok (row :: l, e)
-      | Err e => Ok ([], Some e)
-      | Panic => Panic
-      | OutOfFuel => OutOfFuel
+      let* (s, st1) := tbl_next dbg hb h st in
+      match s with
+      | SNone => Ok ([], None)
+      | SSome row => let* (l, e) := tbl_all_loop f dbg hb h st1 in Ok (row :: l, e)
+      | SErr e => Ok ([], Some e)
       end
   end.
 Definition tbl_all (dbg : bool) (hb : sbases) (h : hdr) : res (list (pointer * pointer) * option error) :=
   tbl_all_loop (S (length (win (h_table h)))) dbg hb h (h_table h, h_count h).
 
-(* EhHdrTableIter::nth(n) on a fresh iterator; n : usize *)
+(* EhHdrTableIter::nth(n) on a fresh iterator; n : usize. `n.checked_mul(row_size)` *)
 Definition tbl_nth (dbg : bool) (hb : sbases) (h : hdr) (n : N) : res (option (pointer * pointer)) :=
   match tbl_field_size (h_enc h) with
   | None => Err EUnsupportedPointerEncoding
   | Some size =>
       let row_size := size * 2 in
       let remain := (if n <=? h_count h then h_count h - n else 0) in     (* saturating_sub *)
-      let* k := chk_mul 64 dbg n row_size in
-      let* t := rd_skip k (h_table h) in
-      let* (o, _) := tbl_next dbg hb h (t, remain) in Ok o
+      if two64 <=? n * row_size then Err EUnsupportedOffset else
+      let* t := rd_skip (n * row_size) (h_table h) in
+      let* (s, _) := tbl_next dbg hb h (t, remain) in
+      match s with SNone => Ok None | SSome row => Ok (Some row) | SErr e => Err e end
   end.
 
 (* the `while len > 1` loop of EhHdrTable::lookup; returns the reader positioned at the chosen row *)
@@ -491,7 +498,8 @@ Fixpoint lookup_loop (fuel : nat) (dbg : bool) (hb : sbases) (h : hdr) (row_size
   | O => OutOfFuel
   | S f =>
       if len <=? 1 then Ok reader else
-      let* k := chk_mul 64 dbg (len / 2) row_size in
+      (* (len / 2).checked_mul(row_size).ok_or(UnexpectedEof) *)
+      let* k := (if two64 <=? len / 2 * row_size then Err EUnexpectedEof else Ok (len / 2 * row_size)) in
       let* (head, tail) := rd_split k reader in
       let* (p, _) := parse_encoded_pointer dbg (h_be h) (h_enc h) (hdr_pp hb h) tail in
       let* pivot := pointer_direct p in
@@ -514,11 +522,11 @@ Definition hdr_lookup (dbg : bool) (hb : sbases) (h : hdr) (address : N) : res p
       Ok p
   end.
 
-(* EhHdrTable::pointer_to_offset: `ptr - eh_frame_ptr` is an unchecked u64 subtraction *)
+(* EhHdrTable::pointer_to_offset: ptr.checked_sub(eh_frame_ptr).ok_or(OffsetOutOfBounds) *)
 Definition pointer_to_offset (dbg : bool) (h : hdr) (p : pointer) : res N :=
   let* a := pointer_direct p in
   let* e := pointer_direct (h_ptr h) in
-  chk_sub 64 dbg a e.
+  if e <=? a then Ok (a - e) else Err EOffsetOutOfBounds.
 
 (* EhHdrTable::fde_for_address(frame, bases, address, EhFrame::cie_from_offset) *)
 Definition hdr_fde_for_address (dbg : bool) (hb : sbases) (h : hdr) (c : scfg) (sec : list byte)
